@@ -181,6 +181,22 @@ fn all_containers(bytes: &[u8], kvs: &[Kv], version: u64, auts: &[TableDfa], mma
             slots.clone_from(&vec![Fst::new(bytes.to_vec()).map_err(e)?]);
             n += exercise(&slots[0], kvs, version, auts, false)?;
         }
+        // clone_from into a reader of a SIBLING file: same version, same number of keys,
+        // the same shape (values with their lowest bit flipped, or the last byte of the last
+        // key changed) - metadata that compares equal must not be taken for the same file
+        if let Some(last) = kvs.last() {
+            let mut sib: Vec<Kv> = kvs.iter().map(|(k, v)| (k.clone(), if *v == 0 { 0 } else { *v ^ 1 })).collect();
+            if sib == kvs && !last.0.is_empty() && *last.0.last().unwrap() < 255 {
+                let l = sib.len() - 1;
+                *sib[l].0.last_mut().unwrap() += 1;
+            }
+            if sib != kvs {
+                let sibling = crate::codec::encode(&sib, &opts(version, Layout::Shared, false));
+                let mut slot = Fst::new(sibling).map_err(e)?;
+                slot.clone_from(&Fst::new(bytes.to_vec()).map_err(e)?);
+                n += exercise(&slot, kvs, version, auts, false).map_err(|m| format!("after clone_from into a reader of a sibling file of the same shape: {}", m))?;
+            }
+        }
         let mut ms = Map::new(other_fst_bytes().to_vec()).map_err(e)?;
         ms.clone_from(&Map::new(bytes.to_vec()).map_err(e)?);
         let mut ss = Set::new(other_fst_bytes().to_vec()).map_err(e)?;
@@ -604,7 +620,7 @@ fn do_model(kvs: &[Kv], auts: &[TableDfa], mmap: bool, st: &mut Stats, rep: &Rep
 pub fn plan(tier: Tier) -> Plan {
     let mut p = Plan::new("C10", "model_checking");
     let thorough = tier.thorough();
-    p.rule = "every model of U_ab3 (quick: <= 4 keys and every 7th larger subset; thorough: all) x patterns {0, 3i+1, boundary values} and the fan-out families (where version 1 has no index above 32 transitions) is encoded by an independent reference encoder in versions 1, 2, 3 x layouts {suffix-shared, trie, shared with multi-transition node form only}; each file is opened from Vec, &[u8], Cow (both), Box<[u8]>, Arc<[u8]> newtype, memmap2::Mmap, through map_data (also from readers of other files) and clone_from into readers of other files and versions, and node-by-node walk through the public node API/stream/len/get/contains_key (probe closure)/range (all kind pairs)/search (sampled 2-state DFAs)/union/intersection/is_superset/is_disjoint/verify are compared with the model (verify: ChecksumMissing for v1-2, Ok for v3); golden files committed under /verif/golden; gate grid: version field in {0,1,2,3,4,255,2^32,u64::MAX} x total length 0..40 x {zero-filled, well-formed}; 110 file lengths around each of 2^12..2^17 (quick: 2^12 and 2^16) in all three versions (stream, verify, get). non-trivial = encoded files with >= 2 keys; the gap family (fan-outs 2..256, five label layouts) in all three versions: every byte as bound of range / search / search_with_state, and get_key on the monotone re-valuation".into();
+    p.rule = "every model of U_ab3 (quick: <= 4 keys and every 7th larger subset; thorough: all) x patterns {0, 3i+1, boundary values} and the fan-out families (where version 1 has no index above 32 transitions) is encoded by an independent reference encoder in versions 1, 2, 3 x layouts {suffix-shared, trie, shared with multi-transition node form only}; each file is opened from Vec, &[u8], Cow (both), Box<[u8]>, Arc<[u8]> newtype, memmap2::Mmap, through map_data (also from readers of other files) and clone_from into readers of other files and versions and of sibling files of the same version and shape, and node-by-node walk through the public node API/stream/len/get/contains_key (probe closure)/range (all kind pairs)/search (sampled 2-state DFAs)/union/intersection/is_superset/is_disjoint/verify are compared with the model (verify: ChecksumMissing for v1-2, Ok for v3); golden files committed under /verif/golden; gate grid: version field in {0,1,2,3,4,255,2^32,u64::MAX} x total length 0..40 x {zero-filled, well-formed}; 110 file lengths around each of 2^12..2^17 (quick: 2^12 and 2^16) in all three versions (stream, verify, get). non-trivial = encoded files with >= 2 keys; the gap family (fan-outs 2..256, five label layouts) in all three versions: every byte as bound of range / search / search_with_state, and get_key on the monotone re-valuation".into();
     p.assumptions = vec![
         "no earlier fst release is available offline: 'as emitted by earlier builders' is represented by the documented layout differences (v1: no transition index; v1-2: no checksum) produced by the reference encoder".into(),
         "the reference encoder is bound to the code three ways: its v3 output is read by the real reader and passes the real verify(), every output is read back by the independent decoder, and the decoder reads the real builder's output (C09)".into(),
